@@ -186,6 +186,19 @@ func (ec *EvalCtx) ghostGlobal(name string) Val {
 	return TV{st.get(key), nil}
 }
 
+// ghostFunArr: the array behind a ghost state function for a given argument sort.
+func (ec *EvalCtx) ghostFunArr(name, argSort string) (string, Term) {
+	st := ec.st
+	gd := st.vc.cs.Ghosts[name]
+	val := strings.TrimSpace(strings.TrimPrefix(gd.Sort, "fun "))
+	key := "G:$" + name + "<" + argSort + ">"
+	st.vc.setKeySort(key, arrSort(argSort, val))
+	if ec.inOld {
+		return key, st.oldGet(key)
+	}
+	return key, st.get(key)
+}
+
 func builtinGhostSort(name string) (string, bool) {
 	switch {
 	case name == "signalled":
@@ -446,7 +459,7 @@ func (ec *EvalCtx) index(e *CExpr) Val {
 	i := ec.evalTerm(e.Args[1])
 	switch v := x.(type) {
 	case SliceV:
-		el := v.Typ.Underlying().(*types.Slice).Elem()
+		el := sliceElem(v.Typ)
 		p := PtrV{Kind: "elem", Root: typeRepr(el), Base: v.Arr, Idx: tAdd(v.Off, i), Elem: el}
 		if v.Off.S == "0" {
 			p.Idx = i
@@ -495,6 +508,19 @@ func (ec *EvalCtx) call(e *CExpr) Val {
 			return TV{v.Off, it}
 		}
 		fail("off of %s", e.Args[0])
+	case "$elems":
+		// the contents of the backing array of a slice whose element type is a single scalar leaf
+		v, ok := arg(0).(SliceV)
+		if !ok {
+			fail("$elems of %s", e.Args[0])
+		}
+		el := sliceElem(v.Typ)
+		p := PtrV{Kind: "elem", Root: typeRepr(el), Base: v.Arr, Idx: tInt(0), Elem: el}
+		key, _ := st.leafSortKey(p, leaf{"", el, sortOf(el)})
+		if ec.inOld {
+			return TV{tSelect(st.oldGet(key), v.Arr), nil}
+		}
+		return TV{tSelect(st.get(key), v.Arr), nil}
 	case "zero":
 		t := ec.resolveType(e.Args[0].String())
 		return st.zeroVal(t)
@@ -595,6 +621,15 @@ func (ec *EvalCtx) call(e *CExpr) Val {
 			fail("$deref of non-pointer")
 		}
 		return st.load(p, ec.inOld)
+	}
+	if strings.HasPrefix(e.Name, "$") {
+		if gd := vc.cs.Ghosts[e.Name[1:]]; gd != nil && strings.HasPrefix(gd.Sort, "fun ") {
+			// ghost state function: $f(x) reads the ghost map G:$f<sort of x>
+			x := argT(0)
+			key, arr := ec.ghostFunArr(e.Name[1:], x.Sort)
+			_ = key
+			return TV{tSelect(arr, x), nil}
+		}
 	}
 	if cp := vc.cs.Preds[e.Name]; cp != nil {
 		if len(cp.Formals) != len(e.Args) {
@@ -849,6 +884,15 @@ func (ec *EvalCtx) havocTarget(tgt string) {
 	}
 	switch e.Kind {
 	case "ghost":
+		if gd := vc.cs.Ghosts[e.Name]; gd != nil && strings.HasPrefix(gd.Sort, "fun ") {
+			for k := range vc.keySort {
+				if strings.HasPrefix(k, "G:$"+e.Name+"<") {
+					st.havocKey(k)
+				}
+			}
+			st.nonnil["pendinghavocprefix:G:$"+e.Name+"<"] = true
+			return
+		}
 		ec.ghostGlobal(e.Name)
 		st.havocKey("G:$" + e.Name)
 		return
@@ -905,7 +949,7 @@ func (ec *EvalCtx) havocTarget(tgt string) {
 			if !ok {
 				fail("modifies %q[*]: not a slice", tgt)
 			}
-			el := sv.Typ.Underlying().(*types.Slice).Elem()
+			el := sliceElem(sv.Typ)
 			ep := PtrV{Kind: "elem", Root: typeRepr(el), Base: sv.Arr, Idx: tInt(0), Elem: el}
 			for _, lf := range leavesOf(el, "") {
 				key, _ := st.leafSortKey(ep, lf)
@@ -925,6 +969,13 @@ func (ec *EvalCtx) havocTarget(tgt string) {
 				fail("modifies $deref: not a pointer")
 			}
 			st.store(p, st.freshVal("mod.deref", p.Elem))
+			return
+		}
+		if gd := vc.cs.Ghosts[strings.TrimPrefix(e.Name, "$")]; gd != nil && strings.HasPrefix(gd.Sort, "fun ") && strings.HasPrefix(e.Name, "$") {
+			x := ec.evalTerm(e.Args[0])
+			key, arr := ec.ghostFunArr(e.Name[1:], x.Sort)
+			_, es, _ := arrayParts(arr.Sort)
+			st.set(key, tStore(arr, x, st.declare("gfv", es)))
 			return
 		}
 		if e.Name == "$chan" { // $chan(c): the ghost state of channel c
@@ -967,7 +1018,7 @@ func (ec *EvalCtx) havocTypeField(t types.Type, field string, elems bool) {
 		fail("modifies %s.%s: no such field", root, field)
 	}
 	if elems {
-		el := np.Elem.Underlying().(*types.Slice).Elem()
+		el := sliceElem(np.Elem)
 		ep := PtrV{Kind: "elem", Root: typeRepr(el), Base: tInt(0), Idx: tInt(0), Elem: el}
 		for _, lf := range leavesOf(el, "") {
 			key, _ := st.leafSortKey(ep, lf)
@@ -1018,12 +1069,18 @@ func (vc *VC) staticTargetKeys(tgt string, origin *ssa.Function, c *ssa.CallComm
 	}
 	switch e.Kind {
 	case "ghost":
+		if gd := vc.cs.Ghosts[e.Name]; gd != nil && strings.HasPrefix(gd.Sort, "fun ") {
+			return []string{"G:$" + e.Name + "<"}, true
+		}
 		return []string{"G:$" + e.Name}, true
 	case "index":
 		if e.Args[0].Kind == "ghost" {
 			return []string{"G:$" + e.Args[0].Name}, true
 		}
 	case "call":
+		if gd := vc.cs.Ghosts[strings.TrimPrefix(e.Name, "$")]; gd != nil && strings.HasPrefix(gd.Sort, "fun ") && strings.HasPrefix(e.Name, "$") {
+			return []string{"G:" + e.Name + "<"}, true
+		}
 		if e.Name == "$chan" {
 			return []string{"CH:len"}, true
 		}
